@@ -602,7 +602,7 @@ def stepRest (d : DW) (line : String) : DW × String :=
     -- `dispatcher.unsubscribe(observer)`: the observer leaves the subscriber list (and is no longer found by create_or_get_observer);
     -- the object itself lives on, unchanged from now on
     (match k.toNat? with
-     | some id => if d.fw.subs.contains id then ({ d with fw := { d.fw with subs := d.fw.subs.erase id } }, "ok") else (d, "raise")
+     | some id => let r := d.fw.unsubscribe id; ({ d with fw := r.1 }, if r.2 then "ok" else "raise")
      | none => (d, "bad-op"))
   | ["fspec"] => (d, fspecLine d.fw.cfg d.fw.s)
   | "gen" :: rest =>
